@@ -151,6 +151,7 @@ def c04(pid, tier, t0):
     res = nv.run_shards(exe, ["tier=" + tier, "deadline=%d" % dl(tier)], nv.NCPU, dl(tier) + 120)
     exe2 = nv.build_harness("c04_vi_undo", "plain", ["c04_vi_undo.c"], wraps=WRAPS)
     res = nv.run_shards(exe2, ["tier=" + tier, "deadline=%d" % dl(tier)], nv.NCPU, dl(tier) + 120, res=res, tag="v")
+    nv.conformance(res)
     return nv.finish(pid, tier, t0, res, {
         "rule": "(a) line-buffer interface: operations = lbuf_edit(text,beg,end) for every 0<=beg<=end<=len+1 and text in {NULL,\"\",a\\n,b\\nc\\n,d} (buffers capped at 6 lines), "
                 "new command (lbuf_modified), undo, redo, saved(0), saved(1); all sequences up to depth, each rebuilt by replay on a fresh buffer; plus runs of 130 edits/undos/redos across the "
@@ -185,6 +186,7 @@ def c05(pid, tier, t0):
 def c02(pid, tier, t0):
     exe = nv.build_harness("c02_dirty", "plain", ["c02_dirty.c", "peek_ex.c", "peek_lbuf.c"], replace=["ex", "lbuf"], wraps=WRAPS)
     res = nv.run_shards(exe, ["tier=" + tier, "deadline=%d" % dl(tier)], nv.NCPU, dl(tier) + 120)
+    nv.conformance(res)
     return nv.finish(pid, tier, t0, res, {
         "rule": "explicit-state search (fork snapshots, state matching on buffer table + texts + canonical histories + file contents + model) over the operations "
                 "{1d, $a|x|., 1s/^/z/, u, redo, w, w!, 1,1w, w g, w! g, e!, e f1|f2|f3, e #, b 1|2|3|+|-, external change of the current file} from 2 initial configurations; "
@@ -244,6 +246,7 @@ def c13(pid, tier, t0):
 def c06(pid, tier, t0):
     exe = nv.build_harness("c06_exref", "plain", ["c06_exref.c", "peek_ex.c", "peek_lbuf.c"], replace=["ex", "lbuf"], wraps=WRAPS)
     res = nv.run_shards(exe, ["tier=" + tier, "deadline=%d" % dl(tier)], nv.NCPU, dl(tier) + 120)
+    nv.conformance(res)
     res.stats["distinct_nontrivial"] = res.stats.get("transitions", 0)
     return nv.finish(pid, tier, t0, res, {
         "rule": "every (command, address) pair - commands a/i/c with 0,1,2 text lines, d, d a, d A, y, y b, pu, pu a, pu b, r of 2/1/0-line and missing files, p, =, k a, k c, rs - x address forms "
@@ -273,6 +276,7 @@ def c15(pid, tier, t0):
 def c20(pid, tier, t0):
     exe = nv.build_harness("c20_buffers", "plain", ["c20_buffers.c", "peek_ex.c", "peek_lbuf.c"], replace=["ex", "lbuf"], wraps=WRAPS)
     res = nv.run_shards(exe, ["tier=" + tier, "deadline=%d" % dl(tier)], nv.NCPU, dl(tier) + 120)
+    nv.conformance(res)
     return nv.finish(pid, tier, t0, res, {
         "rule": "explicit-state search with state matching over {e f1|f2|f3|f4, e #, b 1..4, b +, b -, b #, b %, b ~, b !, 1d, $a|x|., u, w, 2 (move), external change of f2} with 3 and 4 files; "
                 "plus a 16-file run that fills the buffer table, rotates through every slot three times and reads back every buffer; distinct_nontrivial = distinct canonical states",
@@ -286,6 +290,7 @@ def c20(pid, tier, t0):
 def c07(pid, tier, t0):
     exe = nv.build_harness("c07_motions", "plain", ["c07_motions.c"], wraps=WRAPS)
     res = nv.run_shards(exe, ["tier=" + tier, "deadline=%d" % dl(tier)], nv.NCPU, dl(tier) + 120)
+    nv.conformance(res)
     return nv.finish(pid, tier, t0, res, {
         "rule": "motions h l j k 0 ^ $ | w b e W B E f F t T ; , G + - _ % { } H M L space, bare and with counts {2,3,9} (f/t with a character present once, twice, absent, multi-byte), "
                 "from every start position of 8 buffers (ASCII words/punctuation/blank-led and empty lines, tabs + 2-byte + wide, combining + brackets, empty buffer, single character, nested brackets "
@@ -308,6 +313,7 @@ def _c08(pid, tier, t0, own):
 @check("C08")
 def c08(pid, tier, t0):
     exe, res = _c08(pid, tier, t0, True)
+    nv.conformance(res)
     # violations of the UTF-8 invariant belong to C16 (reported there as well); here they still count as failures
     return nv.finish(pid, tier, t0, res, {
         "rule": "operators d y c < > g~ gu gU x 31 motions (word, character, line, find, bracket, paragraph, window) with counts on either side and register prefixes \"a \"A; doubled operators with counts; "
